@@ -69,6 +69,7 @@ type vhT struct {
 	Name    string   `json:"name,omitempty"`
 	Domains []string `json:"domains"`
 	Routes  []rtT    `json:"routes"`
+	Indexed bool     `json:"all_routes_single_exact_header,omitempty"`
 }
 type cfgT []vhT
 
@@ -205,6 +206,39 @@ func (g *rtGen) route(cluster string) rtT {
 	return rt
 }
 
+// indexedRoute: a route of the fast-index-eligible shape: exactly one exact-value header matcher (an http rule may
+// also carry a "method" matcher, which is not a header criterion), on a prefix / path rule or an RPC rule (the
+// "service" fast match with a literal or ".*" included).  Keys and values come from a tiny pool so that several routes
+// of one virtual host match the same request and several routes share one key/value.
+var idxKeys = []string{"k1", "k2", "service", "x-env"}
+var idxVals = []string{"v1", "v2", "gray", ".*", "svc"}
+
+func (g *rtGen) indexedRoute(cluster string) rtT {
+	r := g.r
+	rt := rtT{Cluster: cluster}
+	h := hmT{Name: r.PickS(idxKeys), Value: r.PickS(idxVals)}
+	switch k := r.Intn(100); {
+	case k < 35:
+		rt.Prefix = r.PickS([]string{"/", "/a", "/a/", "/a/b", "/api", "/api/v1"})
+	case k < 45:
+		rt.Path = r.PickS([]string{"/a/b", "/api/v1/x", "/a"})
+	case k < 75: // rpc, "service" fast match shape
+		h.Name = "service"
+		h.Value = r.PickS([]string{".*", "svc", "v1", "gray", "svc"})
+	default: // rpc, common header matcher
+	}
+	rt.Headers = []hmT{h}
+	if (rt.Prefix != "" || rt.Path != "") && r.Pct(25) {
+		m := hmT{Name: "method", Value: r.PickS(methods)}
+		if r.Bool() {
+			rt.Headers = []hmT{m, h}
+		} else {
+			rt.Headers = []hmT{h, m}
+		}
+	}
+	return rt
+}
+
 // config: mostly accepted (distinct canonical domains), sometimes a duplicate or an odd domain, rarely a bad route
 func (g *rtGen) config() cfgT {
 	r := g.r
@@ -249,8 +283,17 @@ func (g *rtGen) config() cfgT {
 			vh.Domains = append(vh.Domains, d)
 		}
 		nr := r.Intn(7)
+		vh.Indexed = r.Pct(25)
+		if vh.Indexed {
+			nr = 2 + r.Intn(5)
+		}
 		for j := 0; j < nr; j++ {
-			rt := g.route(fmt.Sprintf("v%dr%d", i, j))
+			var rt rtT
+			if vh.Indexed {
+				rt = g.indexedRoute(fmt.Sprintf("v%dr%d", i, j))
+			} else {
+				rt = g.route(fmt.Sprintf("v%dr%d", i, j))
+			}
 			vh.Routes = append(vh.Routes, rt)
 		}
 		c = append(c, vh)
@@ -262,7 +305,7 @@ func (g *rtGen) config() cfgT {
 		}
 	}
 	if r.Pct(6) { // default only
-		c = cfgT{{Name: "vh0", Domains: []string{r.PickS([]string{"*", "*:*"})}, Routes: c[0].Routes}}
+		c = cfgT{{Name: "vh0", Domains: []string{r.PickS([]string{"*", "*:*"})}, Routes: c[0].Routes, Indexed: c[0].Indexed}}
 		for j := range c[0].Routes {
 			c[0].Routes[j].Cluster = fmt.Sprintf("v0r%d", j)
 		}
@@ -293,6 +336,66 @@ func (g *rtGen) request() reqT {
 		q.Hdr[r.PickS(hdrKeys)] = r.PickS(hdrVals)
 	}
 	return q
+}
+
+// hostFor: a Host value that the configured domain applies to (wildcards instantiated, a port "*" made concrete)
+func hostFor(d string) string {
+	h := d
+	if strings.HasPrefix(h, "*") {
+		h = "w" + h[1:]
+	}
+	if strings.HasSuffix(h, ":*") {
+		h = h[:len(h)-2] + ":81"
+	}
+	return h
+}
+
+// requestFor: a request aimed at virtual host vh: its headers are the header matchers of several of its routes (so that
+// more than one route matches), the path lies under most configured prefixes
+func (g *rtGen) requestFor(vh vhT) reqT {
+	r := g.r
+	q := g.request()
+	if len(vh.Domains) > 0 {
+		q.Vars[types.VarHost] = hostFor(vh.Domains[r.Intn(len(vh.Domains))])
+	}
+	q.Vars[types.VarPath] = r.PickS([]string{"/a/b", "/api/v1/x", "/a/b", "/a", "/"})
+	q.Vars[types.VarMethod] = r.PickS(methods)
+	q.Hdr = map[string]string{}
+	for k, n := 0, 1+r.Intn(4); k < n && len(vh.Routes) > 0; k++ {
+		for _, h := range vh.Routes[r.Intn(len(vh.Routes))].Headers {
+			if h.Name == "method" || h.Regex {
+				continue
+			}
+			v := h.Value
+			if v == ".*" && r.Pct(70) {
+				v = r.PickS([]string{"svc", "v1", "gray"})
+			}
+			q.Hdr[h.Name] = v
+		}
+	}
+	return q
+}
+
+// indexKey: the key/value under which the route is recorded in the fast index ("", "", false if it is not)
+func (rt rtT) indexKey() (string, string, bool) {
+	if len(rt.Vars) > 0 && rt.Prefix == "" && rt.Path == "" && rt.Regex == "" {
+		return "", "", false
+	}
+	if len(rt.Dsl) > 0 && rt.Prefix == "" && rt.Path == "" && rt.Regex == "" && len(rt.Vars) == 0 {
+		return "", "", false
+	}
+	http := rt.Prefix != "" || rt.Path != "" || rt.Regex != ""
+	var hs []hmT
+	for _, h := range rt.Headers {
+		if http && h.Name == "method" {
+			continue
+		}
+		hs = append(hs, h)
+	}
+	if len(hs) != 1 || hs[0].Regex {
+		return "", "", false
+	}
+	return hs[0].Name, hs[0].Value, true
 }
 
 // ---------------------------------------------------------------------------------------- real objects
@@ -410,6 +513,21 @@ func lookup(rs types.Routers, q reqT) (one string, found bool, all []string) {
 		all = append(all, r.RouteRule().ClusterName(ctx2))
 	}
 	return
+}
+
+// lookupKV runs the real MatchRouteFromHeaderKV
+func lookupKV(rs types.Routers, q reqT, k, v string) (one string, found bool) {
+	defer func() {
+		if p := recover(); p != nil {
+			addPanic(panicT{What: fmt.Sprint(p), Request: q})
+			one, found = "<panic>", true
+		}
+	}()
+	ctx, h := q.ctx()
+	if r := rs.MatchRouteFromHeaderKV(ctx, h, k, v); r != nil {
+		return r.RouteRule().ClusterName(ctx), true
+	}
+	return "", false
 }
 
 // ---------------------------------------------------------------------------------------- regex / dsl oracle
